@@ -285,7 +285,11 @@ func UpdatePathAggregator4ByteAs(msg *bgp.BGPUpdate) error {
 
 	if agg4Attr != nil {
 		msg.PathAttributes = append(msg.PathAttributes[:agg4AttrPos], msg.PathAttributes[agg4AttrPos+1:]...)
-		aggAttr.Value.AS = agg4Attr.Value.AS
+		// RFC 6793 4.2.3: AS4_AGGREGATOR is only meaningful next to an
+		// AGGREGATOR that carries AS_TRANS; otherwise it is ignored
+		if aggAttr.Value.AS == bgp.AS_TRANS {
+			aggAttr.Value.AS = agg4Attr.Value.AS
+		}
 	}
 	return nil
 }
